@@ -314,3 +314,125 @@ Proof.
   split; [reflexivity|]. cbn [snd]. unfold h_put, put_tree. rewrite (repw_next hw w RW). apply RepW_put; [assumption|].
   now apply Rep_remove_children.
 Qed.
+
+(* ---- remove() ---- *)
+Lemma remove_first_n_mid a n b : ~ In n a -> remove_first_n n (a ++ n :: b) = a ++ b.
+Proof.
+  induction a as [|x a IH]; intros H; cbn.
+  - now rewrite Nat.eqb_refl.
+  - replace (Nat.eqb x n) with false by (symmetry; apply Nat.eqb_neq; intros ->; apply H; now left).
+    rewrite IH; [reflexivity|]. intros Y. apply H. now right.
+Qed.
+
+Lemma memn_app x a b : memn x (a ++ b) = memn x a || memn x b.
+Proof. unfold memn. apply existsb_app. Qed.
+
+Lemma Rep_remove_plain h t n t' : WF t -> Rep h t -> remove_branch t n = Some t' -> Rep (h_remove_plain h n) t'.
+Proof.
+  intros W R. unfold remove_branch. set (f := forest_of t).
+  destruct (detach n f) as [[s f1]|] eqn:D; [|discriminate].
+  destruct (detach_spec n f s f1 D) as (q0 & a & b & G & -> & Rs & Ps).
+  rewrite unregister_all_eq. intros X. injection X as <-.
+  set (p := owner q0 f 0).
+  assert (ND := wf_nodup t W). fold f in ND.
+  assert (Hs : In s (a ++ s :: b)) by (apply in_or_app; right; now left).
+  assert (Row := rows_child_in q0 f _ 0 s G Hs). fold p in Row.
+  destruct (rep_node h t R _ Row) as (Hp & _). cbn [r_id r_par fst snd] in Hp. rewrite Rs in Hp.
+  unfold h_remove_plain. rewrite Hp.
+  (* the children of n are walked in post-order *)
+  assert (Hn : hch h n = map rid (rch s)) by (rewrite <- Rs; now apply (rep_node_children h t s W R)).
+  assert (Sub : forall x, In x (pre_f (rch s)) -> In x (pre_f f)) by (intros x Hx; now apply (pre_f_sub f s)).
+  assert (NDs := NoDup_ids_sub f s ND Ps). rewrite ids_t_unfold in NDs. inversion NDs as [|y ys Nn NDc]; subst y ys.
+  assert (Ic : incl (ids (rch s)) (ids f)) by (intros x Hx; unfold ids in *; apply in_map_iff in Hx; destruct Hx as (y & <- & Hy); apply in_map; now apply Sub).
+  assert (EL : h_post (h_fuel h) h n = post_f (rch s)).
+  { apply h_post_ok; [assumption| |now apply (fuel_enough h t)]. intros x Hx. apply (rep_node_children h t x W R). now apply Sub. }
+  unfold h_remove_children. rewrite EL.
+  destruct (unreg_fold (post_f (rch s)) h) as (I1 & I2 & I3 & I4 & I5 & I6 & I7 & I8 & I9).
+  set (hD := fold_left h_unregister (post_f (rch s)) h) in *.
+  assert (PD : Permutation (post_f (rch s)) (ids (rch s))) by (apply (proj2 post_perm)).
+  assert (PL : Permutation (post_f (rch s) ++ [n]) (map rid (pre s))).
+  { rewrite pre_unfold. cbn [map]. rewrite Rs. rewrite <- Permutation_cons_append. constructor. exact PD. }
+  (* the parent is neither the node nor one of its descendants *)
+  assert (NLs := NoDup_child_list q0 f _ ND G).
+  destruct (ctx_kids q0 f 0 _ ND (wf_pos t W) G) as (A0 & B0 & E1 & E2 & E3 & E4 & E5). fold p in E4.
+  assert (Pn : p <> n).
+  { intros E. apply E4. rewrite ids_app, ids_cons. apply in_or_app. right. left. congruence. }
+  assert (PD' : memn p (post_f (rch s)) = false).
+  { apply memn_false. intros Y. apply (Permutation_in _ PD) in Y. apply E4. rewrite ids_app, ids_cons. apply in_or_app. right. right. apply in_or_app. now left. }
+  assert (Hpl : hch h p = map rid (a ++ s :: b)) by (now apply (rep_children_ctx h t q0)).
+  assert (Na : ~ In n (map rid a)).
+  { rewrite ids_app, ids_cons in NLs. intros Y. apply (NoDup_app_disj _ _ n NLs); [now apply incl_top_ids|rewrite <- Rs; now left]. }
+  apply (Rep_cut h _ t q0 a [s] b (post_f (rch s) ++ [n]) _ _ W R G);
+    cbn [h_unregister set_regidx set_chl set_par set_tr hinf hall htyped hcalc hpar htr hch hreg hidx]; auto.
+  - intros x. rewrite ids_single. fold (ids_t s). split; intros Hx; [apply (Permutation_in _ PL Hx)|apply (Permutation_in _ (Permutation_sym PL) Hx)].
+  - intros x. rewrite memn_app. cbn [memn existsb]. rewrite orb_false_r. unfold upd. rewrite I5. destruct (Nat.eqb x n); [now rewrite orb_true_r|now rewrite orb_false_r].
+  - intros x. rewrite memn_app. cbn [memn existsb]. rewrite orb_false_r. unfold upd. rewrite I6. destruct (Nat.eqb x n); [now rewrite orb_true_r|now rewrite orb_false_r].
+  - intros x. fold f p. rewrite memn_app. cbn [memn existsb]. rewrite orb_false_r. unfold upd at 1. destruct (Nat.eqb x n) eqn:En; [now rewrite orb_true_r|].
+    rewrite orb_false_r. unfold upd at 1. destruct (Nat.eqb x p) eqn:Ep.
+    + apply Nat.eqb_eq in Ep. subst x. rewrite PD'. rewrite (upd_neq _ n [] p Pn), I7, PD', Hpl, map_app. cbn [map]. rewrite Rs.
+      rewrite remove_first_n_mid by assumption. now rewrite map_app.
+    + unfold upd. rewrite En. apply I7.
+  - rewrite I8, (rep_reg h t R).
+    change (reg_del n (fold_left (fun r m => reg_del m r) (post_f (rch s)) (reg t))) with (fold_left (fun r m => reg_del m r) [n] (fold_left (fun r m => reg_del m r) (post_f (rch s)) (reg t))).
+    rewrite <- fold_left_app. now apply unreg_reg_perm.
+  - unfold hdid at 1. cbn [set_chl hinf]. rewrite I1, I9, (rep_idx h t R).
+    change (idx_del (i_did (hinf h n)) n (fold_left (fun ix m => idx_del (hdid h m) m ix) (post_f (rch s)) (idx t)))
+      with (fold_left (fun ix m => idx_del (hdid h m) m ix) [n] (fold_left (fun ix m => idx_del (hdid h m) m ix) (post_f (rch s)) (idx t))).
+    rewrite <- fold_left_app. apply unreg_idx_perm; [assumption|]. intros x Hx. unfold hdid. rewrite (rep_info h t x R); [reflexivity|].
+    rewrite pre_unfold in Hx. destruct Hx as [<-|Hx]; [assumption|now apply Sub].
+Qed.
+
+Lemma bool_iff (a b : bool) : (a = true <-> b = true) -> a = b.
+Proof. destruct a, b; intros [H1 H2]; try reflexivity; [symmetry; now apply H1|now apply H2]. Qed.
+
+Lemma live_agree h t v : WF t -> Rep h t -> h_live h v = live t v.
+Proof.
+  intros W R. apply bool_iff. rewrite (h_live_ids h t v W R). unfold live. rewrite existsb_exists. split.
+  - intros H. exists v. split; [assumption|apply Nat.eqb_refl].
+  - intros (m & Hm & E). apply Nat.eqb_eq in E. now subst.
+Qed.
+
+Lemma remove_branch_complete' t v : In v (ids (forest_of t)) -> exists a, remove_branch t v = Some a.
+Proof.
+  intros Hv. destruct (get_node_complete v _ Hv) as (s & Gs). destruct (get_node_loc v _ s Gs) as (q0 & i & l & E & N).
+  unfold remove_branch, detach. rewrite E, N. destruct (unregister_all _ _ _). eexists. reflexivity.
+Qed.
+
+Lemma fold_remove_plain vs : forall h t, WF t -> Rep h t ->
+  Rep (fold_left (fun acc v => if h_live acc v then (if false then h_remove_keep acc v else h_remove_plain acc v) else acc) vs h)
+      (fold_left (fun acc v => if live acc v then match remove_one acc v false with Some a => a | None => acc end else acc) vs t).
+Proof.
+  induction vs as [|v vs IH]; intros h t W R; cbn [fold_left]; [exact R|].
+  rewrite (live_agree h t v W R). destruct (live t v) eqn:L; [|now apply IH]. cbn [remove_one].
+  assert (Hv : In v (ids (forest_of t))).
+  { unfold live in L. apply existsb_exists in L. destruct L as (m & Hm & E). apply Nat.eqb_eq in E. now subst. }
+  destruct (remove_branch_complete' t v Hv) as (a & E). rewrite E.
+  destruct (WF_remove_branch t v a W E) as (Wa & _). apply IH; [assumption|]. now apply (Rep_remove_plain h t v a).
+Qed.
+
+Lemma did_of_agree h t n : WF t -> Rep h t ->
+  match did_of n (forest_of t) with
+  | Some d => h_live h n = true /\ hdid h n = d
+  | None => h_live h n = false
+  end.
+Proof.
+  intros W R. unfold did_of. destruct (get_node n (forest_of t)) as [s|] eqn:Gn; cbn [option_map].
+  - destruct (get_node_spec n _ s Gn) as (Ps & Rs). split.
+    + apply (h_live_ids h t n W R). rewrite <- Rs. unfold ids. now apply in_map.
+    + unfold hdid. rewrite <- Rs. now rewrite (rep_info h t s R Ps).
+  - destruct (h_live h n) eqn:L; [|reflexivity]. apply (h_live_ids h t n W R) in L.
+    destruct (get_node_complete n _ L) as (s & X). congruence.
+Qed.
+
+Theorem sim_op_remove_plain hw w ti n wc : WFw w -> RepW hw w ->
+  Sim (h_op_remove hw ti n false wc) (op_remove w ti n false wc).
+Proof.
+  intros W RW. unfold h_op_remove, op_remove. assert (G := RepW_get hw w ti RW).
+  destruct (h_get hw ti) as [h|]; destruct (get_tree w ti) as [t|] eqn:Gt; try contradiction; [|now apply Sim_same].
+  assert (Wt := WFw_tree w ti t W Gt). assert (D := did_of_agree h t n Wt G).
+  destruct (did_of n (forest_of t)) as [d|].
+  2:{ rewrite D. now apply Sim_same. }
+  destruct D as (L & Ed). rewrite L, Ed, (rep_idx h t G). cbn [negb andb].
+  split; [reflexivity|]. cbn [snd]. unfold h_put, put_tree. rewrite (repw_next hw w RW). apply RepW_put; [assumption|].
+  now apply fold_remove_plain.
+Qed.
